@@ -4,12 +4,15 @@ from .._compat import number_types, string_types
 def to_number(number):
     if isinstance(number, number_types):
         return number
-    if isinstance(number, string_types):
+    if isinstance(number, string_types) and '_' not in number:
+        # python also reads "1_000", "nan" and "infinity": none of them spells a number
         try:
             return int(number)
         except ValueError:
             try:
-                return float(number)
+                value = float(number)
+                if value == value and value not in (float('inf'), float('-inf')):
+                    return value
             except ValueError:
                 pass
     if isinstance(number, bool):
